@@ -292,6 +292,37 @@ def stage_slice_sweep(ctx: Ctx):
                     ctx.violation(f'query|{bad.get("query", bad["why"][:30])}|{bad.get("node", "")}|sweep:comment-offset',
                                   'a query on the edited tree answers differently from the same query on a tree freshly built from its source',
                                   {'start_src': src, 'how': 'put_src offset before trailing comment', 'line': ln, 'new': new, 'src_now': root.src, **bad})
+    # multi-line slices whose continuation lines are indented LESS than their elements, put into multi-line sequences at another indentation (the lines are re-indented one by one)
+    ragged = ['[\n            aaa,\n            (bbb +\n  ccc),\n            ddd,\n]', '(\n                    first,\n                    {k:\n v},\n                    last,\n)',
+              '[\n  p,\n        (q\n      + r),\n s]', '[\n        u, (v,\nw),\n        x]', '[\n\t\ta,\n\t(b +\n c),\n\t\td]']
+    hosts = [('x = [\n    one,\n    two,\n]\n', lambda r: r.body[0].value, 'elts'), ('if 1:\n    call(\n        a,\n        b,\n    )\n', lambda r: r.body[0].body[0].value, 'args'),
+             ('class K:\n    def m(self):\n        return {\n            a,\n            b,\n        }\n', lambda r: r.body[0].body[0].body[0].value, 'elts'), ('x = [one, two]\n', lambda r: r.body[0].value, 'elts'),
+             ('x = (\n one,\n two)\n', lambda r: r.body[0].value, 'elts')]
+    for hsrc, get, fld in hosts:
+        for code in ragged:
+            for i, j in ((0, 0), (1, 1), (2, 2), (0, 1), (1, 2), (0, 2)):
+                for schedule in ('warm', 'cold'):
+                    root = fst.FST(hsrc, 'exec')
+                    node = get(root)
+                    if schedule == 'warm':
+                        for g in root.walk(True):
+                            for name in CACHED_QUERIES:
+                                q(g, name)
+                    try:
+                        node.put_slice(fst.FST(code, 'expr'), i, j, fld)
+                    except Exception:
+                        ctx.dist['sweep:ragged:refused'] = ctx.dist.get('sweep:ragged:refused', 0) + 1
+                        continue
+                    ctx.tick(('sweep-ragged', hsrc, code, i, j, schedule), 'sweep:ragged-indentation')
+                    try:
+                        ast.parse(root.src)
+                    except SyntaxError:
+                        continue
+                    bad = compare_with_fresh(root, rng, 0)
+                    if bad:
+                        ctx.violation(f'query|{bad.get("query", bad["why"][:30])}|{bad.get("node", "")}|sweep:ragged-indentation',
+                                      'a query on the edited tree answers differently from the same query on a tree freshly built from its source',
+                                      {'start_src': hsrc, 'how': f'put_slice({code!r}, {i}, {j}, {fld!r})', 'schedule': schedule, 'src_now': root.src, **bad})
     for src in SWEEP_PROGS + [CORPUS[-1]]:
         try:
             probe = fst.FST(src, 'exec')
